@@ -11,7 +11,7 @@ CHECK = {
   'id': 'C01',
   'level': 'model_checking',
   'rule': ('every directed graph (self-loops, cycles, sharing) on n nodes x every assignment of node representations '
-           '{plain struct, Ref, Box, Array<Ref>, List<Ref>, Table<Ref,Ref>, Tree<Ref,Ref>, heap Tuple, and Tree/Table with a 4-byte tag type on one side and Ref on the other, Array/List/Tree holding plain structs inline whose fields are the references, Array/List/Table/Tree constructed with Int types and then given the contents of a container of Refs by assign()} x every assignment of a root kind per node '
+           '{plain struct, Ref, Box, Array<Ref>, List<Ref>, Table<Ref,Ref>, Tree<Ref,Ref>, heap Tuple, and Tree/Table with a 4-byte tag type on one side and Ref on the other, Array/List/Tree holding plain structs inline whose fields are the references, Array/List/Table/Tree constructed with Int types and then given the contents of a container of Refs by assign(), a plain struct with reference fields whose type also implements C_Int/C_Float/C_Str/Cmp/Hash/Show} x every assignment of a root kind per node '
            '{none, stack slot, new_root, root-registered Ref holder, thread-local entry, callee-saved register (r12; gcc -O0 library)} x {forced, threshold-triggered} collection x two allocation orders is built on the real heap '
            'under a fresh collector; after the collection every node the shadow graph reaches from the declared roots must still be registered and read back intact. '
            'states = distinct shapes, transitions = executions. distinct_nontrivial = executions in which some but not all nodes are reachable. '
@@ -35,7 +35,7 @@ CHECK = {
               + shapes('n2reg', 'cfg-gcc-O0', 2, 'prbaltTu', '-g', 1, 'forced') + shapes('n2reg', 'cfg-gcc-O0', 2, 'prbaltTu', '-g', 1, 'threshold')
               + shapes('n2small', 'base', 2, 'pSVHhALP', '-st', 1, 'forced') + shapes('n2small', 'base', 2, 'prSVHhALP', '-sn', 1, 'threshold')
               + shapes('n2smallasan', 'asan', 2, 'pSVHhALP', '-s', 1, 'forced') + shapes('n3small', 'base', 3, 'pSVh', '-s', 4, 'forced')
-              + shapes('n2conv', 'base', 2, 'prQqCc', '-st', 1, 'forced') + shapes('n2conv', 'base', 2, 'pQqCc', '-sn', 1, 'threshold') + shapes('n2convasan', 'asan', 2, 'pQqCc', '-s', 1, 'forced')
+              + shapes('n2conv', 'base', 2, 'prXQqCc', '-st', 1, 'forced') + shapes('n2conv', 'base', 2, 'pXQqCc', '-sn', 1, 'threshold') + shapes('n3X', 'base', 3, 'pXb', '-st', 4, 'forced') + shapes('n2convasan', 'asan', 2, 'pQqCc', '-s', 1, 'forced')
               + [R('callbacks', 'base', 'mode=callbacks', 'maxn=4'), R('callbacks-asan', 'asan', 'mode=callbacks', 'maxn=3')]
               + [R('ladder', 'base', 'mode=ladder'), R('ladder-asan', 'asan', 'mode=ladder'), R('chain', 'base', 'mode=chain', 'maxlen=100000')]),
     'thorough': (shapes('n2', 'base', 2, 'prbaltTu', '-snrt', 1, 'forced') + shapes('n2', 'base', 2, 'prbaltTu', '-snrt', 1, 'threshold')
@@ -46,7 +46,7 @@ CHECK = {
               + shapes('n2small', 'base', 2, 'prbSVHhALP', '-snrt', 2, 'forced') + shapes('n2small', 'base', 2, 'prbSVHhALP', '-snrt', 2, 'threshold')
               + shapes('n2smallasan', 'asan', 2, 'pSVHhALP', '-snrt', 2, 'forced') + shapes('n3small', 'base', 3, 'pSVHhALP', '-s', 16, 'forced')
               + shapes('n3smallthr', 'base', 3, 'pSHAP', '-st', 8, 'threshold')
-              + shapes('n2conv', 'base', 2, 'prbQqCc', '-snrt', 2, 'forced') + shapes('n2conv', 'base', 2, 'prbQqCc', '-snrt', 2, 'threshold') + shapes('n3conv', 'base', 3, 'pQqCc', '-s', 8, 'forced') + shapes('n2convasan', 'asan', 2, 'pQqCc', '-snrt', 1, 'forced')
+              + shapes('n2conv', 'base', 2, 'prbXQqCc', '-snrt', 2, 'forced') + shapes('n2conv', 'base', 2, 'prbXQqCc', '-snrt', 2, 'threshold') + shapes('n3X', 'base', 3, 'pXbtu', '-st', 8, 'forced') + shapes('n3conv', 'base', 3, 'pQqCc', '-s', 8, 'forced') + shapes('n2convasan', 'asan', 2, 'pQqCc', '-snrt', 1, 'forced')
               + [R('callbacks', 'base', 'mode=callbacks', 'maxn=7'), R('callbacks-asan', 'asan', 'mode=callbacks', 'maxn=6')]
               + [R('ladder', 'base', 'mode=ladder'), R('ladder-asan', 'asan', 'mode=ladder'), R('chain', 'base', 'mode=chain', 'maxlen=1000000', timeout=3000)]),
   },
